@@ -78,13 +78,14 @@ def idle_bg_scenario(rng, sid, window, wait_ms):
 
 def d52_scenario(sid):
     """D52 (open): the background sampler only ever looks at the table being written when that table holds 19 or more keys.
-    Cold keys over three older tables, 30 hot keys rewritten every 100 ms for 6 s (they live in the newest table), idle window 300 ms:
-    every cold key is idle twenty times over and has to be gone; on the unrepaired tree they are all still stored."""
+    Cold keys over two older tables, 30 hot keys rewritten every 100 ms for 12 s (they live in the newest table), idle window 300 ms:
+    every cold key is idle forty times over and has to be gone (a table of 50 keys needs three of the ~40 rounds that start in it; also
+    on a machine several times slower); on the unrepaired tree they are all still stored."""
     dname = "c10x%d" % sid
-    cold = [dmaplib.hx("cold%03d" % i) for i in range(150)]
+    cold = [dmaplib.hx("cold%03d" % i) for i in range(100)]
     hot = [dmaplib.hx("hot%02d" % i) for i in range(30)]
     ops = [{"op": "put", "c": "emb@owner", "d": dname, "k": k, "v": dmaplib.hx("v" * 20)} for k in cold]
-    for r in range(60):
+    for r in range(120):
         ops += [{"op": "put", "c": "emb@owner", "d": dname, "k": k, "v": dmaplib.hx("h" * 20)} for k in hot]
         ops.append({"op": "sleep", "ms": 100})
     for k in cold:
@@ -231,10 +232,10 @@ def run(res):
             sid += 1
         groups.append(({"members": members, "replicas": min(2, members), "partitions": parts, "table": 256, "evict_workers": 1, "dmaps": dmaps}, scs))
     # idle keys found by the members' own background eviction, in every partition (one DMap per cluster: a round scans one DMap of
-    # one random partition; 7 partitions, 8 s = 80 rounds per member: a partition is missed with probability (6/7)^80 < 1e-5)
+    # one random partition; 7 partitions, 20 s = 200 rounds per member, 60 on a machine three times slower: a partition is missed with probability (6/7)^60 < 1e-4)
     for members in ((2,) if res.tier == "quick" else (2, 3, 1)):
         rng = vlib.rng_for(res.seed, PID, "idle-bg", sid)
-        sc = idle_bg_scenario(rng, sid, 300, 8000)
+        sc = idle_bg_scenario(rng, sid, 300, 20000)
         groups.append(({"members": members, "replicas": 1, "partitions": 7, "table": 1 << 16, "evict_workers": 1,
                         "dmaps": {sc["_d"]: {"maxidle_ms": 300}}}, [sc]))
         sid += 1
@@ -257,13 +258,13 @@ def run(res):
             hist[op["op"]] = hist.get(op["op"], 0) + 1
         if sc["_kind"] == "d52":
             left = sum(1 for op, ob in zip(sc["ops"], obs) if op["op"] == "dump" and ob.get("copies"))
-            res.coverage["d52_cold_keys_still_stored_after_6s"] = "%d of %d" % (left, len(sc["_cold"]))
+            res.coverage["d52_cold_keys_still_stored_after_12s"] = "%d of %d" % (left, len(sc["_cold"]))
             if left:
                 kf = vlib.match_known(PID, {"kind": "eviction-samples-newest-table-only"})
                 if kf:
                     res.known_finding(kf["description"])
                 else:
-                    failures.append((sc, (len(obs) - 1, "%d of %d keys idle for 6 s (window 300 ms) in older storage tables are still stored: the background "
+                    failures.append((sc, (len(obs) - 1, "%d of %d keys idle for 12 s (window 300 ms) in older storage tables are still stored: the background "
                                                    "eviction only samples the table being written" % (left, len(sc["_cold"])))))
             continue
         v = judge(sc, obs, sc["_cfg"])
